@@ -8,7 +8,7 @@
    Gen/Dispatch.v is the table observed on the current /repo. *)
 From Coq Require Import ZArith List Bool.
 From RV Require Import Base.Wire Base.Text Lang.Lex Lang.PyLayout Lang.Layout Lang.DispatchSpec Gen.Dispatch.
-From RV Require Import Proofs.LexP Proofs.RelayoutP Proofs.C07P.
+From RV Require Import Proofs.LexP Proofs.RelayoutP Proofs.RoundTripP Proofs.C07P.
 Import ListNotations.
 Open Scope Z_scope.
 
@@ -85,6 +85,44 @@ Theorem C07_else_trailing_comment_refuted :
         SLeaf [101;108;115;101;58]; SLeaf [97;32;61;32;50]].
 Proof. exact else_trailing_comment_refuted. Qed.
 Print Assumptions C07_else_trailing_comment_refuted.
+
+(* ---------------------------------------------------------------- re-layout invariance (nested level) *)
+
+(* the block-skeleton parser (model of _parse_simple_lines) applied to ANY layout inside the guard
+   - junk lines (blank / white-space-only / comment-only, deeper than the enclosing header) before
+   any statement, trailing blanks or a trailing comment after any statement (no comment on
+   elif/else/except), any indentation unit of blanks and tabs - gives back the skeleton *)
+Theorem C07_roundtrip_partial : forall u ns,
+  layout_ok u ns = true ->
+  map erase (parse_lines (render_list (ind_unit u) O ns)) = map lerase ns.
+Proof. exact parse_render_roundtrip. Qed.
+Print Assumptions C07_roundtrip_partial.
+
+(* hence two layouts of the same skeleton are parsed into the same block tree *)
+Theorem C07_relayout_invariant_partial : forall u1 u2 ns1 ns2,
+  layout_ok u1 ns1 = true -> layout_ok u2 ns2 = true -> map lerase ns1 = map lerase ns2 ->
+  map erase (parse_lines (render_list (ind_unit u1) O ns1)) = map erase (parse_lines (render_list (ind_unit u2) O ns2)).
+Proof. exact relayout_invariant. Qed.
+Print Assumptions C07_relayout_invariant_partial.
+
+(* non-vacuity: a tab-indented layout with comment lines, blank lines and trailing comments, and a
+   3-space layout of the same skeleton, are both inside the guard *)
+Definition ex_layout_a : list ltree :=
+  [LBlock [[35;32;99]] KIf [105;102;32;120;32;62;32;49;58] [32;32;35;32;119;104;121]
+     [LLeaf [[]; [9;9;35;32;100;101;101;112]] [97;32;61;32;49] [32;35;32;116];
+      LBlock [] KWhile [119;104;105;108;101;32;97;32;60;32;51;58] [] [LLeaf [] [97;32;43;61;32;49] [32;32]]];
+   LBlock [[]] KElse [101;108;115;101;58] [32] [LLeaf [] [98;32;61;32;50] []]].
+Definition ex_layout_b : list ltree :=
+  [LBlock [] KIf [105;102;32;120;32;62;32;49;58] []
+     [LLeaf [] [97;32;61;32;49] [];
+      LBlock [[32;32;32;32;32;32;35;32;120]] KWhile [119;104;105;108;101;32;97;32;60;32;51;58] [35;32;103;111] [LLeaf [] [97;32;43;61;32;49] []]];
+   LBlock [] KElse [101;108;115;101;58] [] [LLeaf [[32;32;32;32;35;32;121]] [98;32;61;32;50] []]].
+Example C07_relayout_nonvacuous :
+  layout_ok [9] ex_layout_a = true /\ layout_ok [32;32;32] ex_layout_b = true
+  /\ map lerase ex_layout_a = map lerase ex_layout_b
+  /\ length (render_list (ind_unit [9]) O ex_layout_a) = 10%nat.
+Proof. repeat split; vm_compute; reflexivity. Qed.
+Print Assumptions C07_relayout_nonvacuous.
 
 (* ---------------------------------------------------------------- line accounting (finite table, regenerated) *)
 
